@@ -7,6 +7,7 @@
  * J = floor(12 * latF) + 1080 (one binary64 rounding each -- stated, not proved exact).  Containment is
  * stated on I, J. -- C18 */
 /*@ capture x:int y:int cap_lon=lon@x:double cap_lat=lat@x:double */
+/*@ uses Math_AngNormalize */
 /*@ ghost */
 #define GARS_LONF (g_AngNormalize_ret == 180.0 ? -180.0 : g_AngNormalize_ret)
 #define GARS_LATF (lat == 90.0 ? 90.0 * (1 - DBL_EPSILON / 2) : lat)      /* north pole -> last row */
